@@ -3465,6 +3465,7 @@ class DecVar(Vars):
                          dvars.vtype, dvars.name)
         self.dro_model = dro_model
         self.event_adapt = [list(range(dro_model.num_scen))]
+        self.rest_adapt = True
         self.rand_adapt = None
         self.ro_first = - 1
         self.fixed = fixed
@@ -3520,14 +3521,15 @@ class DecVar(Vars):
 
         for event in events:
             index = self.dro_model.series_scen[event]
-            if index in self.event_adapt[0]:
+            if self.rest_adapt and index in self.event_adapt[0]:
                 self.event_adapt[0].remove(index)
             else:
                 raise KeyError('Wrong scenario index or {0} '.format(event) +
                                'has been redefined.')
 
-        if not self.event_adapt[0]:
+        if self.rest_adapt and not self.event_adapt[0]:
             self.event_adapt.pop(0)
+            self.rest_adapt = False
 
         self.event_adapt.append(list(self.dro_model.series_scen[events]))
 
